@@ -55,6 +55,20 @@ func nopanicConfigs(r *rng, n int) []proxyCfg {
 	for _, ss := range []string{"Strict", "LAX", "None", "nOnE"} {
 		out = append(out, proxyCfg{CookieSameSite: ss, InjectRequest: defaultInject(), Htpasswd: map[string]string{"bob": "pw"}})
 	}
+	// logging formats that parse but cannot be executed against the log data (an unknown field), and formats using every documented
+	// field: whatever validation accepts, logging a request or an authentication event never takes the request down
+	// (regression of the defect repaired by d3f52e0)
+	out = append(out, proxyCfg{RequestLoggingFormat: "{{.Foo}} {{.Client}}", InjectRequest: defaultInject(), Htpasswd: map[string]string{"bob": "pw"}},
+		proxyCfg{AuthLoggingFormat: "{{.Nope}} {{.Message}}", InjectRequest: defaultInject(), Htpasswd: map[string]string{"bob": "pw"}, SkipJwtBearer: true},
+		proxyCfg{RequestLoggingFormat: "{{.Client}} {{.Host}} {{.Protocol}} {{.RequestDuration}} {{.RequestID}} {{.RequestMethod}} {{.RequestURI}} {{.ResponseSize}} {{.StatusCode}} {{.Timestamp}} {{.Upstream}} {{.UserAgent}} {{.Username}}",
+			AuthLoggingFormat: "{{.Client}} {{.Host}} {{.Protocol}} {{.RequestID}} {{.RequestMethod}} {{.Timestamp}} {{.UserAgent}} {{.Username}} {{.Status}} {{.Message}}", InjectRequest: defaultInject(), Redis: true})
+	// static upstreams with response codes at and beyond the edge of what net/http can write (100..999): validation rejects the
+	// impossible ones ("cfg:rejected", regression of a4d8b51); every accepted one answers without a panic
+	for _, code := range []int{99, 100, 199, 599, 999, 1000, 0, -1} {
+		code := code
+		out = append(out, proxyCfg{InjectRequest: defaultInject(), SkipAuthRoutes: []string{"^/skip/"},
+			Upstreams: []options.Upstream{{ID: "st", Path: "/", Static: true, StaticCode: &code}}})
+	}
 	for len(out) < n {
 		c := proxyCfg{Redis: r.bool(), CSRFPerRequest: r.bool(), EncodeState: r.bool(), SkipProviderButton: r.intn(3) == 0, ForceJSON: r.intn(4) == 0,
 			SkipJwtBearer: r.bool(), PKCE: r.pick([]string{"", "S256", "plain"}), SkipNonce: r.intn(4) == 0, CookieSameSite: r.pick([]string{"", "lax", "strict", "none"}),
@@ -114,7 +128,7 @@ var weirdFwd = []string{"", ", 10.0.0.1", " ,", "[", "[]", "[::1]", "[::1", "]",
 func init() {
 	registerSuite("nopanic", func(c *suiteCtx) {
 		u := defaultUser()
-		cfgs := nopanicConfigs(c.rng.fork(), 43+10*c.scale)
+		cfgs := nopanicConfigs(c.rng.fork(), 54+10*c.scale)
 		perCfg := 700
 		if c.scale > 1 {
 			perCfg = 2500
@@ -124,6 +138,7 @@ func init() {
 			if err != nil {
 				// a configuration that does not pass validation is outside the property
 				c.count("cfg:rejected")
+				c.count("cfg:rejected:" + truncate(strings.ReplaceAll(err.Error(), "\n", " "), 90))
 				continue
 			}
 			c.count("cfg:ok")
